@@ -1,5 +1,6 @@
 import Proofs.C07Writer
 import Proofs.C07Machine
+import Proofs.C07Quit
 /-!
 # C07 — frames are written whole (property theorems)
 
@@ -154,16 +155,19 @@ theorem C07_torn_writer_progress (cfg : Cfg) (s : St) (w n : Nat) (h : s.pc w = 
     ∃ s1 s2, step cfg s (.ret w) = some s1 ∧ step cfg s1 (.close w) = some s2 ∧ s2.closing = true :=
   torn_writer_can_close cfg s w n h
 
-/-- a connection that is closing has its socket closed already or a caller inside closeWithError that can
-    close it (in the model nothing blocks that step; in the code it waits only for writers that finish) -/
+/-- a connection that is closing has its socket closed already, or a `Close()` from outside that is between its
+    `cancel()` and its `c.close()`, or a caller inside closeWithError; either can close the socket (`cancel()`, then
+    `c.close()`; in the model nothing blocks these steps; in the code they wait only for writers that finish) -/
 theorem C07_closing_progress (cfg : Cfg) (hser : cfg.serialised = true) (as : List Act) (s : St)
     (h : run cfg init as = some s) (hc : s.closing = true) :
-    s.closed = true ∨ ∃ w s1, step cfg s (.closeFinish w) = some s1 ∧ s1.closed = true := by
+    s.closed = true ∨ (∃ s1, step cfg s .shutdown = some s1 ∧ s1.closed = true) ∨
+      ∃ w s1, run cfg s [.cancelCtx w, .closeFinish w] = some s1 ∧ s1.closed = true := by
   have inv := inv_run cfg hser as init s (inv_init cfg) h
-  rcases inv.closerEx hc with h1 | ⟨w, n, hw⟩
+  rcases inv.closerEx hc with h1 | h1 | ⟨w, n, hw⟩
   · exact Or.inl h1
+  · exact Or.inr (Or.inl ⟨_, rfl, rfl⟩)
   · obtain ⟨s1, h1, h2⟩ := closer_can_finish cfg s w n hw
-    exact Or.inr ⟨w, s1, h1, h2⟩
+    exact Or.inr (Or.inr ⟨w, s1, h1, h2⟩)
 
 /-- a caller is told its write succeeded only if its whole frame is on the wire (in one piece, once) -/
 theorem C07_success_means_whole (cfg : Cfg) (hser : cfg.serialised = true) (as : List Act) (s : St)
@@ -239,10 +243,192 @@ theorem C07_nothing_after_partial_partial (cfg : Cfg) (as bs : List Act) (s s' :
 /-- non-vacuity: a coalesced flush of three frames, the second cut inside, everything accounted for -/
 example : ∃ s, run { lens := fun w => 10 * w, coalesce := true } init
     [.submit 1, .submit 2, .submit 3, .enqueue 1, .enqueue 2, .enqueue 3, .tick, .enter 1, .piece 1 3, .piece 1 7,
-     .endWrite 1 true, .enter 2, .piece 2 5, .endWrite 2 false, .ret 1, .ret 2, .ret 3, .close 3, .close 2, .closeFinish 3] = some s ∧
+     .endWrite 1 true, .enter 2, .piece 2 5, .endWrite 2 false, .ret 1, .ret 2, .ret 3, .close 3, .close 2, .cancelCtx 3, .closeFinish 3] = some s ∧
     glue s.wire = [⟨2, 0, 5⟩, ⟨1, 0, 10⟩] ∧ s.pc 1 = .done 10 true ∧ s.pc 2 = .done 5 false ∧
     s.pc 3 = .done 0 false ∧ s.closed = true := by
   refine ⟨_, rfl, ?_, ?_, ?_, ?_, ?_⟩ <;> decide
+
+
+/-! ### the shutdown leg: `quit` closes (`c.cancel()`) BEFORE the socket closes (`c.close()`)
+
+`St.quit` / `St.gone` / `St.ext`, actions `cancelCtx w` (the closer's `cancel()`), `shutQuit` (a `Close()` from outside up to
+`cancel()`), `flusherQuit` (the flusher's select takes `<-w.quit`), `quit w` (a waiting writer sees quit / the flusher tells
+a queued writer `(0, io.EOF)`), `closeFinish w` / `shutdown` (the socket closes). All theorems: every schedule. -/
+
+/-- a Write that ends with an error leaves the writer idle: the semaphore is released / the rest of the batch is failed
+    and the flusher is back at its select. (From here `C07_nothing_after_torn_partial` applies.) -/
+theorem C07_torn_end_is_idle (cfg : Cfg) (hser : cfg.serialised = true) (hq : cfg.flushOnQuit = false) (as : List Act)
+    (s s' : St) (h : run cfg init as = some s) (w : Nat) (hs : step cfg s (.endWrite w false) = some s') :
+    s'.owner = none ∧ s'.flushing = false := by
+  have inv := inv_run cfg hser as init s (inv_init cfg) h
+  have invq := invq_run cfg hser hq as init s (inv_init cfg) (invq_init cfg) h
+  simp only [step] at hs
+  split at hs
+  · split at hs
+    · injection hs with hs; subst hs
+      refine ⟨rfl, ?_⟩
+      cases hc : cfg.coalesce
+      · simpa [hc] using (invq.dirIdle hc).1
+      · simp
+    · simp at hs
+  · simp at hs
+
+/-- FULL STATEMENT (fails on the unchanged code, known finding KF-C07-1): "after a partial write no further frame is
+    written on that connection": from a state in which a Write has just ended torn, NO continuation adds a byte.
+    Counterexamples: `C07_cex_frame_after_partial` (the next semaphore holder) / `_coalesced` (the next timer tick).
+    PROVED PART, all schedules: the ONLY actions that can bring further bytes are those two — the flusher taking a timer
+    tick, a direct writer acquiring the semaphore (`Act.takesNext`, exactly the excluded condition of KF-C07-1). In
+    particular the whole shutdown leg, in any order and any number of times — `cancelCtx`, `shutQuit`, `flusherQuit` with a
+    non-empty queue, `quit w` of waiting and of queued writers, cancellations, new submissions, enqueues, returns,
+    `close`, `closeFinish`, `shutdown` — writes nothing: requests enqueued between a torn flush and quit are failed,
+    not flushed. (With the variant disposition `flushOnQuit` this is false: `C07_cex_last_flush_on_quit`.) -/
+theorem C07_nothing_after_torn_partial (cfg : Cfg) (hser : cfg.serialised = true) (hq : cfg.flushOnQuit = false)
+    (as bs : List Act) (s s' : St) (h : run cfg init as = some s) (hidle : s.owner = none ∧ s.flushing = false)
+    (hk : ∀ a ∈ bs, a.takesNext cfg.coalesce = false) (h' : run cfg s bs = some s') : s'.wire = s.wire :=
+  (idle_run cfg hser hq bs s s' (inv_run cfg hser as init s (inv_init cfg) h) hidle hk h').1
+
+/-- the same as a statement about the shape of the byte stream: whole frames, then at most one frame prefix, which is the
+    very last thing — and it stays the very last thing through the shutdown -/
+theorem C07_stream_is_frames_then_at_most_one_prefix_partial (cfg : Cfg) (hser : cfg.serialised = true)
+    (hq : cfg.flushOnQuit = false) (as bs : List Act) (s s' : St) (h : run cfg init as = some s)
+    (hidle : s.owner = none ∧ s.flushing = false) (ht : onlyLastTorn cfg.lens (glue s.wire) = true)
+    (hk : ∀ a ∈ bs, a.takesNext cfg.coalesce = false) (h' : run cfg s bs = some s') :
+    framed cfg.lens (glue s'.wire) = true ∧ onlyLastTorn cfg.lens (glue s'.wire) = true := by
+  have hw := C07_nothing_after_torn_partial cfg hser hq as bs s s' h hidle hk h'
+  rw [hw]
+  exact ⟨C07_framed cfg hser as s h, ht⟩
+
+/-- the flusher's quit branch (conn.go as it is): nothing is written, no request changes state yet, the queue is
+    handed over to the per-writer `(0, io.EOF)` deliveries, the flusher is gone -/
+theorem C07_quit_disposition (cfg : Cfg) (hq : cfg.flushOnQuit = false) (s s' : St)
+    (hs : step cfg s .flusherQuit = some s') :
+    s'.wire = s.wire ∧ s'.pc = s.pc ∧ s'.queue = s.queue ∧ s'.gone = true ∧ s.quit = true ∧ s.flushing = false := by
+  simp only [step] at hs
+  split at hs
+  · rename_i hg
+    simp only [hq] at hs
+    injection hs with hs; subst hs
+    exact ⟨rfl, rfl, rfl, rfl, hg.2.1, hg.2.2.1⟩
+  · simp at hs
+
+/-- coalescer: once the flusher has taken its quit branch NOTHING is ever written again, whatever happens afterwards
+    (there is no last flush) -/
+theorem C07_nothing_written_after_flusher_quit (cfg : Cfg) (hser : cfg.serialised = true) (hq : cfg.flushOnQuit = false)
+    (hc : cfg.coalesce = true) (as bs : List Act) (s s' : St) (h : run cfg init as = some s) (hg : s.gone = true)
+    (h' : run cfg s bs = some s') : s'.wire = s.wire :=
+  gone_run cfg hser hq hc bs s s' (inv_run cfg hser as init s (inv_init cfg) h)
+    (invq_run cfg hser hq as init s (inv_init cfg) (invq_init cfg) h) hg h'
+
+/-- every queued writer gets its outcome on shutdown: when the flusher is gone, a writer that is still enqueued is in the
+    queue the flusher serves (never lost, never in a batch), and its delivery `(0, io.EOF)` is enabled and writes nothing -/
+theorem C07_no_writer_left_behind (cfg : Cfg) (hser : cfg.serialised = true) (hq : cfg.flushOnQuit = false)
+    (as : List Act) (s : St) (h : run cfg init as = some s) (hg : s.gone = true) (w : Nat) (hw : s.pc w = .queued) :
+    w ∈ s.queue ∧ ∃ s', step cfg s (.quit w) = some s' ∧ s'.pc w = .wrote 0 false ∧ s'.wire = s.wire := by
+  have invq := invq_run cfg hser hq as init s (inv_init cfg) (invq_init cfg) h
+  have htodo : s.todo = [] := invq.idleTodo (invq.goneIdle hg)
+  have hnt : w ∉ s.todo := by rw [htodo]; simp
+  refine ⟨(invq.qAcc w hw).resolve_right hnt,
+    ⟨{ s with pc := setPc s.pc w (.wrote 0 false), queue := s.queue.filter (· ≠ w) }, ?_, ?_, rfl⟩⟩
+  · simp only [step]
+    rw [if_pos (Or.inr ⟨hg, hw, hnt⟩)]
+  · simp [setPc_same]
+
+/-- an outcome "connection closed" `(0, io.EOF / ErrConnectionClosed)` is handed out only when quit is closed, and the
+    writer that gets it has no byte on the wire -/
+theorem C07_quit_outcome_means_quit (cfg : Cfg) (hser : cfg.serialised = true) (hq : cfg.flushOnQuit = false)
+    (as : List Act) (s s' : St) (h : run cfg init as = some s) (w : Nat) (hs : step cfg s (.quit w) = some s') :
+    s.quit = true ∧ s'.pc w = .wrote 0 false ∧ s'.wire = s.wire ∧ ∀ p ∈ s.wire, p.id ≠ w := by
+  have inv := inv_run cfg hser as init s (inv_init cfg) h
+  have invq := invq_run cfg hser hq as init s (inv_init cfg) (invq_init cfg) h
+  simp only [step] at hs
+  split at hs
+  · rename_i hg
+    injection hs with hs; subst hs
+    refine ⟨?_, by simp [setPc_same], rfl, ?_⟩
+    · rcases hg with ⟨h1, _⟩ | ⟨h1, _, _⟩
+      · exact h1
+      · exact invq.goneQuit h1
+    · intro p hp hid
+      obtain ⟨c, hcm, hcid⟩ := glue_has_piece s.wire p hp
+      obtain ⟨_, hpos, hn⟩ := inv.acc.acct c hcm
+      rw [hcid, hid] at hn
+      rcases hg with ⟨_, e⟩ | ⟨_, e, _⟩ <;> simp [e, Pc.sent] at hn <;> omega
+  · simp at hs
+
+/-- a caller parked in writeContext's first select (waiting for the semaphore / for the flusher to take its request) can
+    leave as soon as quit is closed, with `(0, closed)` and without a byte: nobody is left parked there by a shutdown -/
+theorem C07_waiting_sees_quit (cfg : Cfg) (s : St) (w : Nat) (hq : s.quit = true) (hw : s.pc w = .waiting) :
+    ∃ s', step cfg s (.quit w) = some s' ∧ s'.pc w = .wrote 0 false ∧ s'.wire = s.wire := by
+  refine ⟨{ s with pc := setPc s.pc w (.wrote 0 false), queue := s.queue.filter (· ≠ w) }, ?_, by simp [setPc_same], rfl⟩
+  simp only [step]
+  rw [if_pos (Or.inl ⟨hq, hw⟩)]
+
+/-- every caller gets exactly ONE outcome: once `writeContext`'s result `(n, err == nil)` is determined it never changes,
+    whatever happens afterwards (ticks, quit, the flusher's quit branch, the socket closing, ...) -/
+theorem C07_outcome_final (cfg : Cfg) (hser : cfg.serialised = true) (as bs : List Act) (s s' : St)
+    (h : run cfg init as = some s) (w : Nat) (o : Nat × Bool) (ho : (s.pc w).outcome = some o)
+    (h' : run cfg s bs = some s') : (s'.pc w).outcome = some o :=
+  outcome_run cfg hser w o bs s s' (inv_run cfg hser as init s (inv_init cfg) h) ho h'
+
+/-- the byte count of an outcome is exactly what is on the wire of that frame: one chunk of `n` bytes from byte 0, or
+    nothing when `n = 0` -/
+theorem C07_outcome_counts_sent (cfg : Cfg) (hser : cfg.serialised = true) (as : List Act) (s : St)
+    (h : run cfg init as = some s) (w n : Nat) (ok : Bool) (ho : (s.pc w).outcome = some (n, ok)) :
+    (∀ c ∈ glue s.wire, c.id = w → c.start = 0 ∧ c.n = n) ∧ (0 < n → ∃ c ∈ glue s.wire, c.id = w) := by
+  have inv := inv_run cfg hser as init s (inv_init cfg) h
+  have hsent : (s.pc w).sent = n := by
+    cases hp : s.pc w <;> simp [hp, Pc.outcome, Pc.sent] at ho ⊢ <;> omega
+  refine ⟨fun c hc hid => ?_, fun hpos => inv.acc.pres w (by omega)⟩
+  obtain ⟨h0, _, hn⟩ := inv.acc.acct c hc
+  rw [hid, hsent] at hn
+  exact ⟨h0, hn⟩
+
+/-- the variant "one last flush on quit" (`flushOnQuit := true`: the flusher's quit branch calls `flush` instead of failing
+    its queue). Writer 1's flush is torn after 4 of 10 bytes; writer 2 is enqueued afterwards; no timer tick; `Close()`
+    closes quit (the socket is still open: `cancel()` precedes `c.close()`); the flusher's last flush puts frame 2 BEHIND
+    the torn frame and writer 2 is told `(10, nil)`. No action after the torn Write "takes the next one": the hypothesis of
+    `C07_nothing_after_torn_partial` holds and its conclusion fails. -/
+def cexLastFlushPre : List Act := [.submit 1, .enqueue 1, .tick, .enter 1, .piece 1 4, .endWrite 1 false]
+def cexLastFlushPost : List Act :=
+  [.ret 1, .submit 2, .enqueue 2, .shutQuit, .flusherQuit, .enter 2, .piece 2 10, .endWrite 2 true, .ret 2]
+
+theorem C07_cex_last_flush_on_quit :
+    ∃ s0 s, run { lens := fun _ => 10, coalesce := true, flushOnQuit := true } init cexLastFlushPre = some s0 ∧
+      s0.owner = none ∧ s0.flushing = false ∧ s0.wire = [⟨1, 0, 4⟩] ∧
+      (∀ a ∈ cexLastFlushPost, a.takesNext true = false) ∧
+      run { lens := fun _ => 10, coalesce := true, flushOnQuit := true } s0 cexLastFlushPost = some s ∧
+      s.wire = [⟨1, 0, 4⟩, ⟨2, 0, 10⟩] ∧ s.quit = true ∧ s.closed = false ∧ s.pc 2 = .done 10 true ∧
+      onlyLastTorn (fun _ => 10) (glue s.wire) = false := by
+  refine ⟨_, _, rfl, ?_, ?_, ?_, ?_, rfl, ?_, ?_, ?_, ?_, ?_⟩ <;> decide
+
+/-- ... and that history is not a behaviour of the machine with conn.go's disposition: after the flusher's quit branch
+    frame 2 cannot enter the socket ... -/
+theorem C07_last_flush_not_in_model :
+    run { lens := fun _ => 10, coalesce := true } init (cexLastFlushPre ++ cexLastFlushPost) = none := by decide
+
+/-- ... what it has instead: writer 2 is told `(0, io.EOF)` and the torn frame stays the last thing on the wire -/
+theorem C07_quit_fails_queued_after_torn :
+    ∃ s, run { lens := fun _ => 10, coalesce := true } init
+        (cexLastFlushPre ++ [.ret 1, .submit 2, .enqueue 2, .shutQuit, .flusherQuit, .quit 2, .ret 2, .shutdown]) = some s ∧
+      s.wire = [⟨1, 0, 4⟩] ∧ s.pc 2 = .failing 0 ∧ s.pc 1 = .failing 4 ∧ s.gone = true ∧ s.closed = true := by
+  refine ⟨_, rfl, ?_, ?_, ?_, ?_, ?_⟩ <;> decide
+
+/-- non-vacuity, direct writer: quit closes while writer 1 is inside the socket and writers 2, 3 wait for the semaphore;
+    they get `(0, closed)`, writer 1's Write is cut, nothing follows -/
+example : ∃ s, run { lens := fun _ => 10, coalesce := false } init
+    [.submit 1, .submit 2, .submit 3, .enter 1, .piece 1 4, .shutQuit, .quit 2, .quit 3, .endWrite 1 false, .ret 2, .ret 1,
+     .shutdown] = some s ∧
+    s.wire = [⟨1, 0, 4⟩] ∧ s.pc 2 = .failing 0 ∧ s.pc 3 = .wrote 0 false ∧ s.closed = true := by
+  refine ⟨_, rfl, ?_, ?_, ?_, ?_⟩ <;> decide
+
+/-- non-vacuity, coalescer: quit closes in the middle of a flush of [1, 2] while 3 waits to be enqueued: the vectored
+    write goes on (frame 2 is written after quit: the flush in progress, not the shutdown leg), 3 gets `(0, io.EOF)`, then the
+    flusher takes its quit branch -/
+example : ∃ s, run { lens := fun _ => 10, coalesce := true } init
+    [.submit 1, .submit 2, .enqueue 1, .enqueue 2, .tick, .enter 1, .piece 1 10, .submit 3, .shutQuit, .quit 3, .endWrite 1 true,
+     .enter 2, .piece 2 10, .endWrite 2 true, .flusherQuit, .shutdown] = some s ∧
+    s.wire = [⟨1, 0, 10⟩, ⟨2, 0, 10⟩] ∧ s.pc 3 = .wrote 0 false ∧ s.pc 2 = .wrote 10 true ∧ s.gone = true := by
+  refine ⟨_, rfl, ?_, ?_, ?_, ?_⟩ <;> decide
 
 /-! ### frame size is a parameter: nothing above depends on it; the two writers differ in ONE size-independent detail -/
 
@@ -294,7 +480,7 @@ example : run { lens := fun w => 4094 + w, coalesce := false } init
     one behind it fails with 0 bytes, nothing of it reaches the wire -/
 example : ∃ s, run { lens := fun w => if w = 1 then 4096 else 64, coalesce := true } init
     [.submit 1, .submit 2, .enqueue 1, .enqueue 2, .tick, .enter 1, .piece 1 4095, .endWrite 1 false, .ret 1, .ret 2,
-     .close 1, .close 2, .closeFinish 1] = some s ∧
+     .close 1, .close 2, .cancelCtx 1, .closeFinish 1] = some s ∧
     glue s.wire = [⟨1, 0, 4095⟩] ∧ s.pc 1 = .done 4095 false ∧ s.pc 2 = .done 0 false ∧ s.closed = true := by
   refine ⟨_, rfl, ?_, ?_, ?_, ?_⟩ <;> decide
 
